@@ -21,6 +21,7 @@ import (
 	"time"
 
 	"github.com/tailscale/setec/client/setec"
+	"github.com/tailscale/setec/types/api"
 
 	"verif/harness/internal/evid"
 	"verif/harness/internal/fakesvc"
@@ -193,8 +194,10 @@ func TestC20(t *testing.T) {
 		hangingField(r)
 		otherStore(r)
 		dualUnmarshalers(r)
+		manyFailingLookups(r)
+		untaggedEmbeddedPointers(r)
 	}
-	r.Require("applies_to_another_store", "applies_with_a_hanging_field", "dual_unmarshaler_fields", "stores_over_several_structs", "tagged_embedded_fields", "populated_structs", "rejected_shapes", "rejected_arguments", "failing_field_cases", "bytes_fields_mutated", "secret_fields_followed_poll", "shared_secret_fields", "embedded_structs", "untagged_fields_checked", "second_applies")
+	r.Require("applies_with_many_failing_lookups", "untagged_embedded_pointers_checked", "applies_to_another_store", "applies_with_a_hanging_field", "dual_unmarshaler_fields", "stores_over_several_structs", "tagged_embedded_fields", "populated_structs", "rejected_shapes", "rejected_arguments", "failing_field_cases", "bytes_fields_mutated", "secret_fields_followed_poll", "shared_secret_fields", "embedded_structs", "untagged_fields_checked", "second_applies")
 	r.Rule("struct types generated at run time: 1-8 fields in random order from {[]byte, string, setec.Secret, value/pointer BinaryUnmarshaler, ',json' struct/map/int} + unsupported {int, []string, *string, map[string]string, bool, empty tag name} + untagged fields of 5 kinds with sentinel contents, optionally one embedded predeclared struct; prefixes {'', a, a/b, dev/prog}; several fields may name the same secret; scripted failing fields (bad JSON, UnmarshalBinary error); via StoreConfig.Structs and via ParseFields+Apply. Distinct = (entry point, sorted set of field kinds, has failing field, prefix)")
 }
 
@@ -1096,4 +1099,186 @@ func otherStore(r *evid.Run) {
 	}
 	b.Close()
 	r.Distinct("apply to another store")
+}
+
+// manyFailingLookups: Apply on a running store with lookups enabled, over structs in which SEVERAL fields
+// name secrets the service does not have (or refuses), in any position: every other field - also one whose
+// secret the store has to fetch first - is filled, and the error names exactly the failing ones.
+func manyFailingLookups(r *evid.Run) {
+	rng := r.Rand(202020)
+	for c, n := 0, r.N(150, 1500); c < n; c++ {
+		svc := fakesvc.New()
+		svc.Set("p/known", 1, []byte("value-of-known"))
+		nf := 2 + rng.IntN(9)
+		var fields []reflect.StructField
+		kinds := make([]string, nf)
+		nfail := 0
+		for i := 0; i < nf; i++ {
+			k := []string{"absent", "absent", "refused", "late", "late", "known"}[rng.IntN(6)]
+			if c%4 == 0 && i < 4 {
+				k = []string{"absent", "refused"}[rng.IntN(2)] // a run of failures first
+			}
+			if c%4 == 0 && i == nf-1 {
+				k = "late"
+			}
+			kinds[i] = k
+			name := fmt.Sprintf("%s-%d", k, i)
+			switch k {
+			case "late":
+				svc.Set("p/"+name, 1, []byte("value-of-"+name))
+			case "known":
+				name = "known"
+			default:
+				nfail++
+			}
+			fields = append(fields, reflect.StructField{Name: fmt.Sprintf("F%d", i), Type: reflect.TypeOf(""), Tag: reflect.StructTag(fmt.Sprintf(`setec:"%s"`, name))})
+		}
+		svc.Behave = func(q *fakesvc.Req) fakesvc.Behaviour {
+			if strings.HasPrefix(q.Name, "p/refused-") {
+				return fakesvc.Behaviour{Fail: api.ErrAccessDenied, Plain: true}
+			}
+			return fakesvc.Behaviour{}
+		}
+		st, err := setec.NewStore(context.Background(), setec.StoreConfig{Client: svc, Secrets: []string{"p/known"}, AllowLookup: true, PollInterval: -1, Logf: func(string, ...any) {}})
+		if err != nil {
+			panic(err)
+		}
+		ptr := reflect.New(reflect.StructOf(fields))
+		f, err := setec.ParseFields(ptr.Interface(), "p")
+		if err != nil {
+			r.Violation("spurious-error", -1, err.Error(), nil)
+			st.Close()
+			return
+		}
+		aerr := f.Apply(context.Background(), st)
+		r.Eval(1)
+		r.Count("applies_with_many_failing_lookups", 1)
+		r.Distinct(fmt.Sprintf("apply with %d failing lookups", min(nfail, 5)))
+		what := fmt.Sprintf("apply case %d: fields in order %v (absent = the service has no such secret, refused = access denied, late = on the service but not yet in the store, known = in the store)", c, kinds)
+		if (aerr != nil) != (nfail > 0) {
+			r.Violation("apply-error-wrong", -1, fmt.Sprintf("%s: Apply returned %v with %d failing fields", what, aerr, nfail), nil)
+		}
+		for i, k := range kinds {
+			got := ptr.Elem().Field(i).String()
+			want := ""
+			switch k {
+			case "late":
+				want = fmt.Sprintf("value-of-late-%d", i)
+			case "known":
+				want = "value-of-known"
+			}
+			if got != want {
+				r.Violation("field-not-filled-beside-failing-ones", -1, fmt.Sprintf("%s: field F%d (%s) holds %q, want %q; Apply reported: %v", what, i, k, got, want, aerr), nil)
+				break
+			}
+			if want == "" && aerr != nil && !strings.Contains(aerr.Error(), fmt.Sprintf("F%d", i)) {
+				r.Violation("apply-error-wrong", -1, fmt.Sprintf("%s: the error does not name failing field F%d: %v", what, i, aerr), nil)
+				break
+			}
+		}
+		st.Close()
+	}
+}
+
+// Plain has no tagged field at all.
+type Plain struct {
+	A string
+	B int
+}
+
+type tagsByValue struct {
+	X string `setec:"x"`
+}
+
+type withNilEmbedded struct {
+	*Plain
+	Tok   string `setec:"tok"`
+	Other *Plain
+}
+
+type withNilEmbeddedDeep struct {
+	tagsByValue
+	*Plain
+	Y []byte `setec:"y"`
+}
+
+type holder struct {
+	*Plain
+	Note string
+}
+
+type withNilEmbeddedNested struct {
+	holder
+	Z string `setec:"z"`
+}
+
+// untaggedEmbeddedPointers: an embedded POINTER to a struct that carries no tag anywhere is an untagged field
+// like any other: nil before, nil after - ParseFields, Apply and NewStore included, also when parsing fails.
+func untaggedEmbeddedPointers(r *evid.Run) {
+	svc := fakesvc.New()
+	for _, n := range []string{"tok", "x", "y", "z"} {
+		svc.Set("e/"+n, 1, []byte("value-of-"+n))
+	}
+	type probe struct {
+		name   string
+		v      any
+		isNil  func() bool
+		filled func() bool
+	}
+	mk := func() []probe {
+		a, b, c := &withNilEmbedded{}, &withNilEmbeddedDeep{}, &withNilEmbeddedNested{}
+		return []probe{
+			{"struct{*Plain; Tok `setec`; Other *Plain}", a, func() bool { return a.Plain == nil && a.Other == nil }, func() bool { return a.Tok == "value-of-tok" }},
+			{"struct{tagsByValue; *Plain; Y `setec`}", b, func() bool { return b.Plain == nil }, func() bool { return b.X == "value-of-x" && string(b.Y) == "value-of-y" }},
+			{"struct{holder{*Plain; Note}; Z `setec`}", c, func() bool { return c.Plain == nil && c.Note == "" }, func() bool { return c.Z == "value-of-z" }},
+		}
+	}
+	for _, via := range []string{"ParseFields", "ParseFields+Apply", "NewStore"} {
+		for _, p := range mk() {
+			r.Eval(1)
+			r.Count("untagged_embedded_pointers_checked", 1)
+			r.Distinct("untagged embedded pointer via " + via)
+			var err error
+			filled := true
+			func() {
+				defer func() {
+					if pv := recover(); pv != nil {
+						err = fmt.Errorf("panic: %v", pv)
+					}
+				}()
+				switch via {
+				case "ParseFields":
+					_, err = setec.ParseFields(p.v, "e")
+				case "ParseFields+Apply":
+					var f *setec.Fields
+					if f, err = setec.ParseFields(p.v, "e"); err == nil {
+						st, serr := setec.NewStore(context.Background(), setec.StoreConfig{Client: svc, Secrets: []string{"e/tok"}, AllowLookup: true, PollInterval: -1, Logf: func(string, ...any) {}})
+						if serr != nil {
+							panic(serr)
+						}
+						err = f.Apply(context.Background(), st)
+						st.Close()
+						filled = p.filled()
+					}
+				case "NewStore":
+					var st *setec.Store
+					st, err = setec.NewStore(context.Background(), setec.StoreConfig{Client: svc, Structs: []setec.Struct{{Value: p.v, Prefix: "e"}}, PollInterval: -1, Logf: func(string, ...any) {}})
+					if err == nil {
+						st.Close()
+						filled = p.filled()
+					}
+				}
+			}()
+			if err != nil {
+				r.Violation("spurious-error", -1, fmt.Sprintf("%s on %s: %v", via, p.name, err), nil)
+				continue
+			}
+			if !filled {
+				r.Violation("field-value-wrong", -1, fmt.Sprintf("%s on %s: the tagged fields were not filled", via, p.name), nil)
+			}
+			if !p.isNil() {
+				r.Violation("untagged-field-touched", -1, fmt.Sprintf("%s on %s: the embedded *Plain (no tag on it or anywhere inside it) was nil before and is allocated now: an untagged field was written", via, p.name), nil)
+			}
+		}
+	}
 }
